@@ -8,6 +8,8 @@ All statements are about the model functions of `C10/Model.lean` at the lawful i
 (any linearly ordered field `K`; `sq` its square-root operation, constrained by `LawfulSqrt` where used).
 Specifications: the `Mem` predicates of `Shapes.lean` and `IsSupport*` below.
 -/
+set_option linter.style.haveILetI false
+
 namespace C10
 open Model Model.C10
 
@@ -261,7 +263,7 @@ theorem capsule_support3 (hs : LawfulSqrt sq) (a b : V3 K) (r : K) (dir : V3 K) 
   rw [htn]
   simp only [Option.getD_some, capsuleToward3]
   -- which end point is chosen agrees with comparing `dir·a` and `dir·b`
-  let _ : Num K := fieldNum K sq
+  letI : Num K := fieldNum K sq
   set n := sq (dir.x * dir.x + dir.y * dir.y + dir.z * dir.z) with hndef
   have hcmp : ∀ p : V3 K, @V3.dot K (fieldNum K sq) (@V3.sdiv K (fieldNum K sq) dir n) p
       = (@V3.dot K (fieldNum K sq) dir p) / n := by
@@ -310,7 +312,7 @@ theorem capsule_support2 (hs : LawfulSqrt sq) (a b : V2 K) (r : K) (dir : V2 K) 
   rw [htn]
   simp only [Option.getD_some, capsuleToward2]
   -- which end point is chosen agrees with comparing `dir·a` and `dir·b`
-  let _ : Num K := fieldNum K sq
+  letI : Num K := fieldNum K sq
   set n := sq (dir.x * dir.x + dir.y * dir.y) with hndef
   have hcmp : ∀ p : V2 K, @V2.dot K (fieldNum K sq) (@V2.sdiv K (fieldNum K sq) dir n) p
       = (@V2.dot K (fieldNum K sq) dir p) / n := by
@@ -338,5 +340,156 @@ theorem capsule_support2 (hs : LawfulSqrt sq) (a b : V2 K) (r : K) (dir : V2 K) 
     exact ⟨mem_of a (seg2_mem_a sq a b), max_of a (le_refl _) c.le⟩
   · rw [hcmp, hcmp, div_lt_div_iff_of_pos_right hn] at c
     exact ⟨mem_of b (seg2_mem_b sq a b), max_of b (not_lt.1 c) (le_refl _)⟩
+
+/-! ## cylinder and cone (3-D only) -/
+
+private theorem csf_mem (h d : K) (hh : 0 ≤ h) :
+    letI := fieldNum K sq
+    (-h ≤ copysign h d) ∧ copysign h d ≤ h := by
+  rw [copysign_field]; exact cs_mem h d hh
+private theorem csf_max (h d x : K) (hh : 0 ≤ h) (hx : -h ≤ x ∧ x ≤ h) :
+    letI := fieldNum K sq
+    d * x ≤ d * copysign h d := by
+  rw [copysign_field]; exact cs_max h d x hh hx
+
+private theorem neq_field (a b : K) : letI := fieldNum K sq; (neq a b = true) ↔ a = b := by
+  unfold neq
+  rw [Bool.and_eq_true, decide_eq_true_iff, decide_eq_true_iff]
+  exact le_antisymm_iff.symm
+
+private theorem fieldNum_sqrt (x : K) : @Num.sqrt K (fieldNum K sq) x = sq x := rfl
+
+/-- facts about `n = √(x² + 0² + z²)`, the norm computed by `normalize_mut` after `vres[1] = 0` -/
+private theorem xz_norm (hs : LawfulSqrt sq) (x z : K) :
+    0 ≤ sq (x * x + 0 * 0 + z * z) ∧ sq (x * x + 0 * 0 + z * z) * sq (x * x + 0 * 0 + z * z) = x * x + z * z := by
+  have h0 : 0 ≤ x * x + 0 * 0 + z * z := by nlinarith [mul_self_nonneg x, mul_self_nonneg z]
+  refine ⟨hs.nonneg _ h0, ?_⟩
+  rw [hs.sq_mul _ h0]; ring
+
+private theorem xz_zero {x z n : K} (hnn : n * n = x * x + z * z) (h : n = 0) : x = 0 ∧ z = 0 := by
+  subst h
+  have hx := mul_self_nonneg x; have hz := mul_self_nonneg z
+  constructor
+  · exact mul_self_eq_zero.1 (by nlinarith)
+  · exact mul_self_eq_zero.1 (by nlinarith)
+
+/-- **C10 (cylinder)**: for every cylinder (`half_height ≥ 0`, `radius ≥ 0`) and *every* direction,
+`Cylinder::local_support_point` is a point of the cylinder maximising `dir·p` over the cylinder. -/
+theorem cylinder_support (hs : LawfulSqrt sq) (hh r : K) (dir : V3 K) (hh0 : 0 ≤ hh) (hr : 0 ≤ r) :
+    letI := fieldNum K sq
+    IsSupport3 sq (Cylinder.mk hh r).Mem dir (cylinderLocal hh r dir) := by
+  obtain ⟨hn0, hnn⟩ := xz_norm sq hs dir.x dir.z
+  have hcm := csf_mem sq hh dir.y hh0
+  have hnorm : @V3.norm K (fieldNum K sq) ⟨dir.x, 0, dir.z⟩ = sq (dir.x * dir.x + 0 * 0 + dir.z * dir.z) := rfl
+  rcases Bool.eq_false_or_eq_true (@neq K (fieldNum K sq) (@V3.norm K (fieldNum K sq) ⟨dir.x, 0, dir.z⟩) 0) with hb | hb
+  · rw [hnorm] at hb
+    have h0 := (neq_field sq _ _).1 hb
+    obtain ⟨hx, hz⟩ := xz_zero hnn h0
+    simp only [IsSupport3, Cylinder.Mem, cylinderLocal, hnorm, hb, if_true, V3.zero, V3.dot]
+    refine ⟨⟨hcm, by nlinarith [mul_self_nonneg r]⟩, ?_⟩
+    rintro q ⟨hy, _⟩
+    have := csf_max sq hh dir.y q.y hh0 hy
+    rw [hx, hz]; linarith
+  · rw [hnorm] at hb
+    have h0 : sq (dir.x * dir.x + 0 * 0 + dir.z * dir.z) ≠ 0 := by
+      intro h; rw [(neq_field sq _ _).2 h] at hb; exact Bool.noConfusion hb
+    have hn := lt_of_le_of_ne hn0 (Ne.symm h0)
+    obtain ⟨e1, e2⟩ := unit_scale2 dir.x dir.z _ r hn hnn
+    simp only [IsSupport3, Cylinder.Mem, cylinderLocal, hnorm, hb, Bool.false_eq_true, if_false, V3.dot, V3.sdiv, V3.smul]
+    refine ⟨⟨hcm, le_of_eq e2⟩, ?_⟩
+    rintro q ⟨hy, hq⟩
+    have h1 := csf_max sq hh dir.y q.y hh0 hy
+    have h2 := dot_le2 dir.x dir.z q.x q.z _ r hn.le hr hnn hq
+    calc dir.x * q.x + dir.y * q.y + dir.z * q.z = (dir.x * q.x + dir.z * q.z) + dir.y * q.y := by ring
+      _ ≤ _ := add_le_add h2 h1
+      _ = _ := by rw [← e1]; ring
+
+example : (0:ℝ) ≤ 2 ∧ (0:ℝ) ≤ 1/2 := by norm_num
+
+/-- the heart of the cone case: a linear functional on the cone `{ρ·2hh ≤ r·(hh-y), |y| ≤ hh}` is bounded by
+the larger of its values at the apex (`A = dy·hh`) and on the base rim (`B = n·r - dy·hh`). -/
+private theorem cone_bound (hh r n dx dy dz qx qy qz : K) (hh0 : 0 < hh) (hr : 0 ≤ r) (hn : 0 ≤ n)
+    (hnn : n * n = dx * dx + dz * dz) (hy : -hh ≤ qy ∧ qy ≤ hh)
+    (hq : (qx * qx + qz * qz) * ((2 * hh) * (2 * hh)) ≤ (r * r) * ((hh - qy) * (hh - qy))) :
+    dx * qx + dy * qy + dz * qz ≤ max (dy * hh) (n * r - dy * hh) := by
+  have hs : 0 ≤ hh - qy := by linarith [hy.2]
+  -- L·2hh ≤ n·r·(hh - qy)
+  have hL : (dx * qx + dz * qz) * (2 * hh) ≤ n * r * (hh - qy) := by
+    apply le_of_mul_self_le (mul_nonneg (mul_nonneg hn hr) hs)
+    have c := cs2 dx dz qx qz
+    have h4 : 0 ≤ (2 * hh) * (2 * hh) := mul_self_nonneg _
+    calc (dx * qx + dz * qz) * (2 * hh) * ((dx * qx + dz * qz) * (2 * hh))
+        = ((dx * qx + dz * qz) * (dx * qx + dz * qz)) * ((2 * hh) * (2 * hh)) := by ring
+      _ ≤ ((dx * dx + dz * dz) * (qx * qx + qz * qz)) * ((2 * hh) * (2 * hh)) :=
+          mul_le_mul_of_nonneg_right c h4
+      _ = (n * n) * ((qx * qx + qz * qz) * ((2 * hh) * (2 * hh))) := by rw [hnn]; ring
+      _ ≤ (n * n) * ((r * r) * ((hh - qy) * (hh - qy))) :=
+          mul_le_mul_of_nonneg_left hq (mul_self_nonneg n)
+      _ = n * r * (hh - qy) * (n * r * (hh - qy)) := by ring
+  -- 2hh·(d·q) ≤ 2hh·A + s·(B - A),  s = hh - qy ∈ [0, 2hh]
+  have h2 : 0 < 2 * hh := by linarith
+  rcases le_total (n * r - dy * hh) (dy * hh) with hAB | hAB
+  · rw [max_eq_left hAB]
+    have : (dx * qx + dy * qy + dz * qz) * (2 * hh) ≤ (dy * hh) * (2 * hh) := by
+      nlinarith [mul_nonneg hs (sub_nonneg.2 hAB)]
+    exact le_of_mul_le_mul_right this h2
+  · rw [max_eq_right hAB]
+    have hs2 : 0 ≤ 2 * hh - (hh - qy) := by linarith [hy.1]
+    have : (dx * qx + dy * qy + dz * qz) * (2 * hh) ≤ (n * r - dy * hh) * (2 * hh) := by
+      nlinarith [mul_nonneg hs2 (sub_nonneg.2 hAB)]
+    exact le_of_mul_le_mul_right this h2
+
+/-- **C10 (cone)**: for every cone (`half_height > 0`, `radius ≥ 0`; apex at `+half_height`) and *every*
+direction, `Cone::local_support_point` is a point of the cone maximising `dir·p` over the cone: the
+two-candidate comparison apex / base rim in the code is exhaustive. -/
+theorem cone_support (hs : LawfulSqrt sq) (hh r : K) (dir : V3 K) (hh0 : 0 < hh) (hr : 0 ≤ r) :
+    letI := fieldNum K sq
+    IsSupport3 sq (Cone.mk hh r).Mem dir (coneLocal hh r dir) := by
+  obtain ⟨hn0, hnn⟩ := xz_norm sq hs dir.x dir.z
+  have hcm := csf_mem sq hh dir.y hh0.le
+  have hnorm : @V3.norm K (fieldNum K sq) ⟨dir.x, 0, dir.z⟩ = sq (dir.x * dir.x + 0 * 0 + dir.z * dir.z) := rfl
+  have bound := fun q : V3 K => cone_bound hh r _ dir.x dir.y dir.z q.x q.y q.z hh0 hr hn0 hnn
+  rcases Bool.eq_false_or_eq_true (@neq K (fieldNum K sq) (@V3.norm K (fieldNum K sq) ⟨dir.x, 0, dir.z⟩) 0) with hb | hb
+  · rw [hnorm] at hb
+    have h0 := (neq_field sq _ _).1 hb
+    obtain ⟨hx, hz⟩ := xz_zero hnn h0
+    simp only [IsSupport3, Cone.Mem, coneLocal, hnorm, hb, if_true, V3.dot, fieldNum_two]
+    refine ⟨⟨hcm, ?_⟩, ?_⟩
+    · have := mul_nonneg (mul_self_nonneg r) (mul_self_nonneg (hh - @copysign K (fieldNum K sq) hh dir.y))
+      calc _ = (0:K) := by ring
+        _ ≤ _ := this
+    · rintro q ⟨hy, _⟩
+      have := csf_max sq hh dir.y q.y hh0.le hy
+      rw [hx, hz]
+      calc _ = dir.y * q.y := by ring
+        _ ≤ _ := this
+        _ = _ := by ring
+  · rw [hnorm] at hb
+    have h0 : sq (dir.x * dir.x + 0 * 0 + dir.z * dir.z) ≠ 0 := by
+      intro h; rw [(neq_field sq _ _).2 h] at hb; exact Bool.noConfusion hb
+    have hn := lt_of_le_of_ne hn0 (Ne.symm h0)
+    obtain ⟨e1, e2⟩ := unit_scale2 dir.x dir.z _ r hn hnn
+    simp only [IsSupport3, Cone.Mem, coneLocal, hnorm, hb, Bool.false_eq_true, if_false, V3.dot, V3.sdiv, V3.smul,
+      fieldNum_two]
+    have hB : dir.x * (dir.x / sq (dir.x * dir.x + 0 * 0 + dir.z * dir.z) * r) + dir.y * -hh
+        + dir.z * (dir.z / sq (dir.x * dir.x + 0 * 0 + dir.z * dir.z) * r)
+        = sq (dir.x * dir.x + 0 * 0 + dir.z * dir.z) * r - dir.y * hh := by rw [← e1]; ring
+    rw [hB]
+    split_ifs with c
+    · refine ⟨⟨⟨by linarith, le_refl _⟩, ?_⟩, ?_⟩
+      · calc _ = (0:K) := by ring
+          _ ≤ _ := by rw [sub_self]; simp
+      · rintro q ⟨hy, hq⟩
+        calc _ ≤ _ := bound q hy hq
+          _ = dir.y * hh := max_eq_left c.le
+          _ = _ := by ring
+    · refine ⟨⟨⟨le_refl _, by linarith⟩, ?_⟩, ?_⟩
+      · rw [e2]; apply le_of_eq; ring
+      · rintro q ⟨hy, hq⟩
+        calc _ ≤ _ := bound q hy hq
+          _ = _ := max_eq_right (not_lt.1 c)
+          _ = _ := hB.symm
+
+example : (0:ℝ) < 3/2 ∧ (0:ℝ) ≤ 1/4 := by norm_num
 
 end C10
